@@ -383,6 +383,13 @@ pub(crate) struct LogReader {
     processed (e.g. during database recoveries).
     */
     current_block_offset: usize,
+
+    /**
+    True if the end of the file was reached in the middle of a physical record i.e. the last write
+    to the log was torn. Appending to such a file would bury the partial bytes in the middle of the
+    log where they make the records written after them unreadable.
+    */
+    has_partial_tail: bool,
 }
 
 /// Public methods
@@ -408,9 +415,15 @@ impl LogReader {
             initial_offset: initial_block_offset,
             current_cursor_position: initial_block_offset,
             current_block_offset: 0,
+            has_partial_tail: false,
         };
 
         Ok(reader)
+    }
+
+    /// Returns true if the log ended with a partially written physical record.
+    pub fn has_partial_tail(&self) -> bool {
+        self.has_partial_tail
     }
 
     /**
@@ -553,6 +566,7 @@ impl LogReader {
         let mut header_buffer = [0; HEADER_LENGTH_BYTES];
         let header_bytes_read = self.log_file.read(&mut header_buffer)?;
         if header_bytes_read < HEADER_LENGTH_BYTES {
+            self.has_partial_tail = header_bytes_read > 0;
             // The end of the file was reached before we were able to read a full header. This
             // can occur if the log writer died in the middle of writing the record.
             let err_msg = format!(
@@ -574,6 +588,7 @@ impl LogReader {
         let data_bytes_read = self.log_file.read(&mut data_buffer)?;
 
         if data_bytes_read < data_length {
+            self.has_partial_tail = true;
             // The end of the file was reached before we were able to read a full data chunk. This
             // can occur if the log writer died in the middle of writing the record.
             let err_msg = format!(
